@@ -101,6 +101,20 @@ Bases == << [label |-> "rich-xsd", start |-> "rich.xsd", files |-> <<RichXsd, Ot
             [label |-> "unknown-start", start |-> "rich.xsd", files |-> <<RichXsd, OtherXsd>>, mutable |-> FALSE, feat |-> {"start_unknown"},
              start_override |-> "missing.xsd"] >>
 
+\* malformed inputs whose error variant the model names: [class, base, mutation]
+ErrCases == << [class |-> "import_without_namespace", base |-> "rich-xsd", mut |-> [op |-> "drop_attr", attr |-> "namespace", idx |-> 1, file |-> 1]],
+               [class |-> "import_of_missing_file", base |-> "rich-xsd", mut |-> [op |-> "set_attr", attr |-> "schemaLocation", idx |-> 1, val |-> "nowhere.xsd", file |-> 1]],
+               [class |-> "types_without_schema", base |-> "wsdl", mut |-> [op |-> "rename_tag", tag |-> "schema", idx |-> 1, to |-> "notschema", file |-> 1]],
+               [class |-> "unknown_message", base |-> "wsdl", mut |-> [op |-> "set_attr", attr |-> "message", idx |-> 1, val |-> "tns:NoSuchMessage", file |-> 1]],
+               [class |-> "encoded_body", base |-> "wsdl", mut |-> [op |-> "set_attr", attr |-> "use", idx |-> 1, val |-> "encoded", file |-> 1]],
+               [class |-> "invalid_address", base |-> "wsdl", mut |-> [op |-> "set_attr", attr |-> "location", idx |-> 1, val |-> "url_bad", file |-> 1]],
+               [class |-> "invalid_soap_action", base |-> "wsdl", mut |-> [op |-> "set_attr", attr |-> "soapAction", idx |-> 1, val |-> "url_bad", file |-> 1]],
+               [class |-> "part_without_element", base |-> "wsdl", mut |-> [op |-> "drop_attr", attr |-> "element", idx |-> 1, file |-> 1]],
+               [class |-> "unknown_part_element", base |-> "wsdl", mut |-> [op |-> "set_attr", attr |-> "element", idx |-> 1, val |-> "tns:NoSuchElement", file |-> 1]],
+               [class |-> "unknown_binding", base |-> "wsdl", mut |-> [op |-> "set_attr", attr |-> "binding", idx |-> 1, val |-> "tns:NoSuchBinding", file |-> 1]],
+               [class |-> "not_xml", base |-> "rich-xsd", mut |-> [op |-> "content", class |-> "text", file |-> 1]] >>
+ASSUME \A e \in 1..Len(ErrCases) : PrintT(<<"ERRCASE", ToJson(ErrCases[e] @@ [err |-> ErrorOf[ErrCases[e].class]])>>)
+
 Vocab == [names |-> [x |-> [xml |-> "x"]],
           uris |-> [Urich |-> [uri |-> "http://zv.test/c13/rich"], Uother |-> [uri |-> "http://zv.test/c13/other"], Usvc |-> [uri |-> "http://zv.test/c13/svc"]],
           texts |-> [doc |-> "two\nlines", addr |-> "http://127.0.0.1:9/svc", act |-> "http://zv.test/c13/svc/GetItem"]]
